@@ -464,6 +464,9 @@ func clip(s string) string {
 func (d Dataset) Materialize() string {
 	dir := cli.Scratch()
 	for name, content := range d.Files {
+		if strings.HasSuffix(name, ".nw") {
+			content = cli.TreesLayout(content) // tree files in one of the layouts met in practice
+		}
 		os.WriteFile(filepath.Join(dir, name), []byte(content), 0o644)
 	}
 	return dir
@@ -487,7 +490,7 @@ func Run(tp Template, d Dataset, seed int64, threads int, extra ...string) Obser
 		args = append(args, "-t", strconv.Itoa(threads))
 	}
 	args = append(args, extra...)
-	r := cli.Run(dir, d.Files[tp.Stdin], args...)
+	r := cli.Run(dir, cli.TreesLayout(d.Files[tp.Stdin]), args...)
 	o := Observed{Code: r.Code, Stdout: r.Stdout, Stderr: r.Stderr, Files: map[string]string{}, TimedOut: r.TimedOut}
 	// every file that was not part of the data set is output
 	ents, _ := os.ReadDir(dir)
